@@ -25,7 +25,7 @@ def main():
             {"harness": "c17b-seq", "cfg": {"depth": "5"}, "budget_s": 20, "label": "QueuePacketConn, all sequences of 5 operations over {QueueIncoming a/b, ReadFrom, WriteTo a/b, recv OutgoingQueue a/b, Close} with buffer scribbling, against a FIFO reference"},
             {"harness": "c17b-overflow", "budget_s": 10, "label": "QueuePacketConn, queueSize+5 packets each way: overflow dropped, order kept, nothing blocks"},
             {"harness": "c17b-full", "cfg": {"maxproducers": "2"}, "budget_s": 30, "label": "QueuePacketConn, 2 concurrent producers (QueueIncoming / WriteTo) meeting a queue with 0/1/2 free slots that nobody drains (optionally closed afterwards): every call returns, order kept, exactly the free slots are taken: " + U},
-            {"harness": "c17b-written-to", "budget_s": 20, "label": "QueuePacketConn with its real sweeper on virtual time: a client written to every T/4, T/2, T-1s or 50 ms for four timeouts (optionally another client in between): never discarded, every packet still queued in order"},
+            {"harness": "c17b-written-to", "budget_s": 20, "label": "QueuePacketConn with its real sweeper on virtual time: a client written to every T/4, T/2, T-1s or 0.5 s for four timeouts (optionally another client in between): never discarded, every packet still queued in order"},
             {"harness": "c17b-conc", "budget_s": 30, "label": "QueuePacketConn, 2 feeders + reader + writer (+ closer): " + U},
             {"harness": "c17c-sweeper", "budget_s": 10, "label": "ClientMap with its real sweeper on virtual time: first seen at {0,T/4,T/2,T/2-1,3T/4} x refresh {none,T/2,T-1,T/2+1,2ns,0.5s,0.999s,T/4}: present with contents at idle T-1ns, discarded and closed by 1.5T"},
         ]
